@@ -19,6 +19,18 @@ Record side := {
   sd_srv_cert : option string          (* key type of session.serverCertChain *)
 }.
 
+(* TLS 1.3 only: what happened after the handshake *)
+Record post := {
+  p_agree : bool;            (* both ends hold the same traffic secrets before and after each KeyUpdate, data flows
+                                both ways after each, and the first record under the twice-updated client keys
+                                opens with keys derived by the harness (hashlib/hmac) under the hash of the NAME *)
+  p_steps : list string;     (* hash that maps each traffic secret to the next (client x2, server x2), identified
+                                by recomputing HKDF-Expand-Label "traffic upd" with hashlib/hmac *)
+  p_lens : list Z;           (* byte lengths of all six traffic secrets *)
+  p_pha : bool;              (* post-handshake client authentication completed *)
+  p_resume : bool            (* a second handshake resumed by PSK (ticket) onto the same suite and data flowed *)
+}.
+
 Record obs := {
   o_sid : Z; o_ver : Z;                (* what the harness asked for *)
   o_sh_suite : Z; o_sh_ver : Z;        (* ServerHello on the wire *)
@@ -29,7 +41,9 @@ Record obs := {
   o_fact : list (string * Z * Z);      (* distinct (cipherfactory function, key bytes, IV bytes or -1) calls *)
   o_prfs : list string;                (* distinct PRF functions calc_key applied *)
   o_hkdf : list string;                (* distinct hash names given to the TLS 1.3 key schedule *)
-  o_n : Z; o_c2s : list Z; o_s2c : list Z   (* application data: payload bytes, record body lengths *)
+  o_n : Z; o_c2s : list Z; o_s2c : list Z;  (* application data: payload bytes, record body lengths *)
+  o_exp_same : bool; o_exp_kind : string;   (* keyingMaterialExporter: both ends equal; PRF/hash that produced it *)
+  o_post : option post
 }.
 
 Definition with_meaning (o : obs) (f : meaning -> bool) : bool :=
@@ -114,6 +128,20 @@ Definition chk_sizes (o : obs) : bool := with_meaning o (fun m =>
   record_sizes_ok m (o_ver o) (sd_etm (o_cli o)) (o_n o) (o_c2s o)
   && record_sizes_ok m (o_ver o) (sd_etm (o_srv o)) (o_n o) (o_s2c o)
   && negb (Nat.eqb (List.length (o_c2s o)) 0) && negb (Nat.eqb (List.length (o_s2c o)) 0)).
+
+Definition chk_exporter (o : obs) : bool := with_meaning o (fun m =>
+  if o_ver o =? 0 then true else o_exp_same o && String.eqb (o_exp_kind o) (prf_at m (o_ver o))).
+
+Definition chk_post (o : obs) : bool := with_meaning o (fun m =>
+  if o_ver o =? 4 then
+    match o_post o with
+    | Some p =>
+        p_agree p && p_pha p && p_resume p
+        && Nat.eqb (List.length (p_steps p)) 4 && forallb (fun h => String.eqb h (prf_at m 4)) (p_steps p)
+        && Nat.eqb (List.length (p_lens p)) 6 && forallb (fun l => l =? prf_hash_len m) (p_lens p)
+    | None => false
+    end
+  else true).
 
 (* the Python twin of the registry and of parse_name (harness/c20_iana.py) says the same *)
 Definition twin_ok (c : Z * option string * option (list Z)) : bool :=
